@@ -541,6 +541,28 @@ def _shape_place(fn, pl, depth, seen):
             suffix += "[%s%d]" % ("-" if p["from_end"] else "", p["ci"])
         else:
             suffix += "[i]"
+    if _PATH[0] is not None and fields and "f" in fields[0] and not any("ix" in p for p in fields):
+        # positional mode: a field of a value built by an aggregate at its last definition before the use
+        d = _def_before(fn, pl["l"], _CUR[0])
+        if d is not None and d[2]["k"] == "assign" and d[2]["rv"]["k"] == "agg" and d[2]["rv"].get("ak") in ("tuple", "adt"):
+            rv = d[2]["rv"]
+            ops = rv["ops"]
+            i0 = fields[0]["f"]
+            if i0 < len(ops) and not (rv["ak"] == "adt" and len(rv.get("fields", [])) != len(ops)):
+                rest = ""
+                for p in fields[1:]:
+                    rest += ("." + p["n"]) if "f" in p else ("@" + p["dc"]) if "dc" in p else ("[%s%d]" % ("-" if p["from_end"] else "", p["ci"])) if "ci" in p else "[i]"
+                old = _CUR[0]
+                _CUR[0] = (d[0], d[1])
+                try:
+                    return shape(fn, ops[i0], depth, seen) + rest
+                finally:
+                    _CUR[0] = old
+        base = _shape_local(fn, pl["l"], depth, seen)
+        suffix2 = ""
+        for p in fields:
+            suffix2 += ("." + p["n"]) if "f" in p else ("@" + p["dc"]) if "dc" in p else ("[%s%d]" % ("-" if p["from_end"] else "", p["ci"])) if "ci" in p else "[i]"
+        return base + suffix2
     if _RESTRICT[0] is not None and any("ix" in p for p in fields):
         # path mode: keep the index expression, `index(base, i)` (parseable), then the remaining projections
         k = next(i for i, p in enumerate(pl["p"]) if isinstance(p, dict) and "ix" in p)
@@ -585,7 +607,59 @@ def shape_on(fn, op_or_local, blocks, depth=12):
         _RESTRICT[0] = old
 
 
+_PATH = [None]  # positional mode: the path as a list of blocks (blocks may repeat: unrolled loops)
+_CUR = [None]   # positional mode: (index into the path, statement index) of the use being resolved
+_POSIDX = {}
+
+
+def _positions(fn):
+    """id(statement or terminator) -> (block, statement index); terminators get len(stmts)."""
+    idx = _POSIDX.get(fn.id)
+    if idx is None:
+        idx = {}
+        for i, b in enumerate(fn.blocks):
+            for si, st in enumerate(b["stmts"]):
+                idx[id(st)] = (i, si)
+            idx[id(b["term"])] = (i, len(b["stmts"]))
+        _POSIDX[fn.id] = idx
+    return idx
+
+
+def shape_at(fn, op_or_local, path, pos=None, depth=48):
+    """Positional path mode: like shape_on, but `path` is a *sequence* of blocks in which a block
+    may occur several times (a loop taken several times), and every local is resolved to its last
+    definition before the place of use along that sequence. `pos` = (index into the path,
+    statement index) of the use; default: the end of the path."""
+    old = (_RESTRICT[0], _PATH[0], _CUR[0])
+    _RESTRICT[0] = set(path)
+    _PATH[0] = list(path)
+    _CUR[0] = pos if pos is not None else (len(path) - 1, 10 ** 9)
+    try:
+        return shape(fn, op_or_local, depth)
+    finally:
+        _RESTRICT[0], _PATH[0], _CUR[0] = old
+
+
+def _def_before(fn, l, cur):
+    """Last whole-local definition of l at or before position cur along _PATH: (path index, stmt index, node)."""
+    idx = _positions(fn)
+    path = _PATH[0]
+    by_block = {}
+    for bb, n in fn.defs_of(l):
+        by_block.setdefault(bb, []).append((idx[id(n)][1], n))
+    j, si = cur
+    while j >= 0:
+        cands = [(x, n) for x, n in by_block.get(path[j], []) if (x < si if j == cur[0] else True)]
+        if cands:
+            x, n = max(cands, key=lambda c: c[0])
+            return (j, x, n)
+        j -= 1
+    return None
+
+
 def _shape_local(fn, l, depth, seen):
+    if _PATH[0] is not None:
+        return _shape_local_at(fn, l, depth, seen)
     if l in seen or depth <= 0:
         return "_%d" % l
     seen = seen | {l}
@@ -705,6 +779,84 @@ def enum_arms(prog, fn, adt):
             arms[name] = {"target": tgt, "blocks": region, "explicit": dv in tg}
         res.append({"bb": bb, "place": src, "arms": arms})
     return res
+
+
+def _shape_local_at(fn, l, depth, seen):
+    cur = _CUR[0]
+    d = _def_before(fn, l, cur)
+    key = (l, d[0], d[1]) if d else (l, -1, -1)
+    if key in seen or depth <= 0:
+        return "_%d" % l
+    seen = seen | {key}
+    if d is None:
+        return "p%d" % l if 1 <= l <= fn.j["arg_count"] else "_%d" % l
+    j, si, n = d
+    # a store through a projection of l between the definition and the use is not modelled
+    idx = _positions(fn)
+    path = _PATH[0]
+    for bb_, kind, node in fn.uses_of(l):
+        if kind in ("stmt-dst", "term-dst"):
+            pb, ps = idx[id(node)]
+            for jj in range(j, cur[0] + 1):
+                if path[jj] == pb and (jj > j or ps > si) and (jj < cur[0] or ps < cur[1]):
+                    return "partial_store(_%d)" % l
+    old = _CUR[0]
+    _CUR[0] = (j, si)
+    try:
+        saved = fn.defs_of
+        # evaluate the single definition with the generic code: temporarily present it as the only definition
+        return _one_def_shape(fn, l, n, depth, seen)
+    finally:
+        _CUR[0] = old
+
+
+def _one_def_shape(fn, l, n, depth, seen):
+    if n["k"] == "assign":
+        rv = n["rv"]
+        k = rv["k"]
+        if k == "use":
+            return shape(fn, rv["op"], depth, seen)
+        if k in ("ref", "rawptr"):
+            return _shape_place(fn, rv["pl"], depth, seen)
+        if k == "discr":
+            return "discr(%s)" % _shape_place(fn, rv["pl"], depth, seen)
+        if k == "cast":
+            inner = shape(fn, rv["op"], depth, seen)
+            return inner if not rv["ck"].startswith("IntToInt") else "(%s as %s)" % (inner, rv["ty"])
+        if k == "bin":
+            return "%s(%s, %s)" % (rv["op"].replace("WithOverflow", ""), shape(fn, rv["a"], depth - 1, seen), shape(fn, rv["b"], depth - 1, seen))
+        if k == "un":
+            return "%s(%s)" % (rv["op"], shape(fn, rv["a"], depth - 1, seen))
+        if k == "agg":
+            if rv.get("ak") == "adt":
+                nm = "%s::%s" % (rv["adt"].split("::")[-1], rv["variant"]) if rv["adt"].split("::")[-1] != rv["variant"] else rv["variant"]
+                return "%s{%s}" % (nm, ", ".join("%s: %s" % (f, shape(fn, o, depth - 1, seen)) for f, o in zip(rv["fields"], rv["ops"])))
+            if rv.get("ak") == "closure":
+                import json as _json
+                return "closure(%s)" % ", ".join([_json.dumps(rv.get("closure") or "?")] + [shape(fn, o, depth - 1, seen) for o in rv["ops"]])
+            return "%s(%s)" % (rv.get("ak"), ", ".join(shape(fn, o, depth - 1, seen) for o in rv["ops"]))
+        if k == "repeat":
+            return "[%s; %s]" % (shape(fn, rv["op"], depth - 1, seen), rv["n"])
+        return "?"
+    if n["k"] == "call":
+        names = call_names(n)
+        if any(_SHAPE_TRANSPARENT.search(x) for x in names) and n["args"]:
+            return shape(fn, n["args"][0], depth, seen)
+        extra = []
+        if names and re.search(r"::try_(into|from)$", names[-1]):
+            m = re.match(r"(?:core|std)::result::Result<([\w:]+),", (n.get("callee") or {}).get("output") or "")
+            if m:
+                extra = ['"%s"' % m.group(1)]
+        nm = short_name(names[-1] if names else "indirect")
+        if names:
+            mnum = re.match(r"core::num::<impl (\w+)>::(\w+)$", names[-1])
+            if mnum:
+                nm = "num_%s::%s" % (mnum.group(1), mnum.group(2))
+            _CALLEES.setdefault((fn.id, nm, len(n["args"])), set()).add(names[-1])
+            if "{closure" in names[-1]:
+                nm = "Fn::call"
+        return "%s(%s)" % (nm, ", ".join([shape(fn, a, depth - 1, seen) for a in n["args"]] + extra))
+    return "?"
 
 
 def shape_in(fn, local, blocks, depth=7):
